@@ -682,13 +682,41 @@ class Executor:
             # would call `handle_updated_file`
             # and needlessly mark all sinks pending. (They should already be pending.)
             async with self.db:
-                self.workflow.update_file_hashes({hash_job.path: new_hash}, cause=hash_job.cause)
+                if not self._is_stale_confirmation(hash_job):
+                    self.workflow.update_file_hashes(
+                        {hash_job.path: new_hash}, cause=hash_job.cause
+                    )
         if not hash_job.future.done():
             # Resolved after the DB write, so an awaiter that re-reads file state on wake always
             # sees the post-transition state.
             # Already done when the future was cancelled concurrently (e.g. Builder.stop());
             # set_result would then raise InvalidStateError.
             hash_job.future.set_result(new_hash)
+
+    def _is_stale_confirmation(self, hash_job: HashJob) -> bool:
+        """Tell whether the result of a CONFIRMED hash job has been overtaken by the graph.
+
+        A hash job is queued when a file is declared static, and applied whenever it completes.
+        In between, requests keep arriving:
+        the declaring step can be rerun, which detaches the file,
+        and the detached node can be deleted or taken over by another declaration,
+        e.g. as an output or volatile output of a step.
+        The answer to "does this static file exist?" is then of no use to anyone:
+        the node is gone, or it has a role in which confirmations have no meaning
+        (`_HASH_TRANSITIONS` has no row for it and `update_file_hashes` would raise).
+        Such a result is dropped, in the same way as an unchanged EXTERNAL result.
+        Must be called inside the transaction that would apply the result.
+        """
+        if hash_job.cause != HashUpdateCause.CONFIRMED:
+            return False
+        file = self.workflow.find(File, hash_job.path)
+        if file is None:
+            return True
+        return file.get_state() not in (
+            FileState.UNCONFIRMED,
+            FileState.CONFIRMED,
+            FileState.MISSING,
+        )
 
     async def _format_provenance(self, path: str) -> list[tuple[str, str]]:
         """Format where `path` came from in the workflow, as a reporter page.
